@@ -243,3 +243,31 @@ package table
 //@   modifies *
 //@   ensures[levels_as_configured; C02] err == nil ==> c.Validation_level_legacy.Level == vLegacy.Level && c.Validation_level_m20.Level == vM20.Level && c.Validate_order == vOrder && c.SpoolDir == spoolDir
 //@   ensures[empty_lists] err == nil ==> len(c.routes) == 0 && len(c.blacklist) == 0 && len(c.aggregators) == 0 && len(c.rewriters) == 0
+
+// ---------------------------------------------------------------- rewriters are a slice of values: same list semantics, same immutability (C18)
+//@ spec sameRW(a rewriter.RW, b rewriter.RW) bool := a.Old == b.Old && a.New == b.New && a.Not == b.Not && a.Max == b.Max && a.re == b.re && a.notRe == b.notRe && a.old == b.old && a.new == b.new && a.not == b.not
+//@ func (table *Table) AddRewriter(rw rewriter.RW)
+//@   property C18
+//@   requires table.published() && !table.Mutex.held
+//@   let c := table.conf()
+//@   let n := len(table.conf().rewriters)
+//@   modifies *
+//@   ensures[published]  table.published() && !table.Mutex.held
+//@   ensures[appended]   len(table.conf().rewriters) == n + 1 && sameRW(table.conf().rewriters[n], rw)
+//@        && (forall j int :: 0 <= j && j < n ==> sameRW(table.conf().rewriters[j], old(c.rewriters[j])))
+//@   ensures[others]     table.conf().routes == old(c.routes) && table.conf().blacklist == old(c.blacklist) && table.conf().aggregators == old(c.aggregators) && sameScalars(table.conf(), c)
+//@   ensures[snapshot_immutable] len(c.rewriters) == n && (forall j int :: 0 <= j && j < n ==> sameRW(c.rewriters[j], old(c.rewriters[j])))
+//@
+//@ func (table *Table) DelRewriter(id int) error
+//@   property C18
+//@   requires table.published() && !table.Mutex.held && id >= 0
+//@   let c := table.conf()
+//@   let n := len(table.conf().rewriters)
+//@   modifies *
+//@   ensures[published]   table.published() && !table.Mutex.held
+//@   ensures[beyond_end]  id >= n ==> result != nil && table.config.valref == old(table.config.valref)
+//@   ensures[removed]     id < n ==> result == nil && len(table.conf().rewriters) == n - 1
+//@        && (forall j int :: 0 <= j && j < id ==> sameRW(table.conf().rewriters[j], old(c.rewriters[j])))
+//@        && (forall j int :: id <= j && j < n - 1 ==> sameRW(table.conf().rewriters[j], old(c.rewriters[j + 1])))
+//@   ensures[others]      table.conf().routes == old(c.routes) && table.conf().blacklist == old(c.blacklist) && table.conf().aggregators == old(c.aggregators) && sameScalars(table.conf(), c)
+//@   ensures[snapshot_immutable] len(c.rewriters) == n && (forall j int :: 0 <= j && j < n ==> sameRW(c.rewriters[j], old(c.rewriters[j])))
